@@ -37,7 +37,7 @@ pub fn def() -> CheckDef {
         real: &["storescp run_store_sync / run_store_async (whole per-connection loop: C-STORE, C-ECHO, ReleaseRQ and AbortRQ arms)", "ClientAssociation, ServerAssociation, AsyncClientAssociation, AsyncServerAssociation: send, receive, release, abort, Drop", "establish / establish_async on both sides", "std and tokio TcpStream, mio, tokio current-thread runtime"],
         stub: &["TCP/IP (simulated queues; cut, failing send, timeout as scheduler events)", "stub peer (independent PS3.8 encoder)", "application scripts", "PS3.8 send-sequence acceptor (oracle)"],
         assumptions: &["in the library pairings the acceptor application is a scripted loop over the library API; the storescp-* configurations run the tool's own loops against a scripted requestor", "loss/duplication/reordering of bytes is not injected (TCP does not do that); connection-level faults are"],
-        required_probes: &["release-ok", "send-ok-on-wire", "receive-ok-in-order", "served-release", "release-collision", "release-got-abort", "release-got-data", "release-on-closed", "abort-sent", "reply-split-across-reads", "fault-during-release", "storescp-release-answered", "storescp-release-mid-dataset", "storescp-aborted-by-peer"],
+        required_probes: &["release-ok", "send-ok-on-wire", "receive-ok-in-order", "served-release", "release-collision", "release-got-abort", "release-got-data", "release-on-closed", "abort-sent", "reply-split-across-reads", "fault-during-release", "storescp-release-answered", "storescp-release-mid-dataset", "storescp-aborted-by-peer", "storescp-peer-continues-after-release"],
         net: true,
     }
 }
@@ -765,6 +765,8 @@ enum ScuOp {
     Release,
     Abort,
     Close,
+    /// release, read the reply, then keep the connection and send more (a C-ECHO, or a second release request)
+    ReleaseThenMore(Vec<u8>),
 }
 
 fn gen_scu_script(w: &mut Tape, max_pdu: usize) -> Vec<ScuOp> {
@@ -797,10 +799,18 @@ fn gen_scu_script(w: &mut Tape, max_pdu: usize) -> Vec<ScuOp> {
         }
         v.push(ScuOp::Message { pdus, abandoned: false, wait: w.chance(3, 4), what: "C-STORE" });
     }
-    v.push(match w.weighted(&[6, 2, 1]) {
+    v.push(match w.weighted(&[6, 2, 1, 2]) {
         0 => ScuOp::Release,
         1 => ScuOp::Abort,
-        _ => ScuOp::Close,
+        2 => ScuOp::Close,
+        _ => {
+            let more = if w.chance(1, 2) {
+                dimse::pack(w, &[Frag { ctx: 1, command: true, last: true, data: dimse::c_echo_rq(777) }], max_pdu).concat()
+            } else {
+                rp::encode(&RPdu::ReleaseRq).unwrap()
+            };
+            ScuOp::ReleaseThenMore(more)
+        }
     });
     v
 }
@@ -895,6 +905,26 @@ fn run_storescp(is_async: bool, w: &mut Tape, env: &EnvRef) -> RunResult {
                     ScuOp::Abort => {
                         raw_send_all(fd, &rp::encode(&RPdu::Abort { source: 0, reason: 0 }).unwrap());
                     }
+                    ScuOp::ReleaseThenMore(more) => {
+                        if raw_send_all(fd, &rp::encode(&RPdu::ReleaseRq).unwrap()) {
+                            scu.lock().unwrap().0 = true;
+                            loop {
+                                match raw_recv_pdu(fd, &mut buf) {
+                                    Some((6, _)) => {
+                                        scu.lock().unwrap().1 = true;
+                                        // the association is released; a peer that goes on all the same
+                                        if raw_send_all(fd, more) {
+                                            // whatever comes back is on the wire record; wait for the close
+                                            while raw_recv_pdu(fd, &mut buf).is_some() {}
+                                        }
+                                        break;
+                                    }
+                                    Some((4, _)) => {}
+                                    _ => break,
+                                }
+                            }
+                        }
+                    }
                     ScuOp::Close => {}
                 }
             }
@@ -926,6 +956,9 @@ fn run_storescp(is_async: bool, w: &mut Tape, env: &EnvRef) -> RunResult {
     let abandoned = script.iter().any(|o| matches!(o, ScuOp::Message { abandoned: true, .. }));
     // an acceptor answers a release request with a release reply: once the tool has been handed a complete
     // A-RELEASE-RQ while it was still in the association, its next and last PDU is A-RELEASE-RP
+    if script.iter().any(|o| matches!(o, ScuOp::ReleaseThenMore(_))) && scu.lock().unwrap().1 {
+        env.probe("storescp-peer-continues-after-release");
+    }
     if let Some((_, rq_seq)) = recvd.iter().find(|(p, s)| matches!(p, RPdu::ReleaseRq) && *s != u64::MAX) {
         let gone_before = sent.iter().any(|(p, s, _)| matches!(p, RPdu::Abort { .. }) && *s <= *rq_seq);
         if !gone_before && !faults {
